@@ -60,6 +60,15 @@ const (
 	_refStartTag = 0x51
 )
 
+// a list and its first element, a struct and its first field, a list and a longer list over
+// the same array share one address without being the same value: containers are told apart
+// by address, type and (for lists) length
+type _refKey struct {
+	addr unsafe.Pointer
+	typ  reflect.Type
+	n    int
+}
+
 // used to ref object,list,map
 type _refElem struct {
 	// record the kind of target, objects are the same only if the address and kind are the same
@@ -84,6 +93,7 @@ func (e *Encoder) checkEncodeRefMap(v reflect.Value) (int, bool) {
 	var (
 		kind reflect.Kind
 		addr unsafe.Pointer
+		key  _refKey
 	)
 
 	if v.Kind() == reflect.Ptr {
@@ -91,6 +101,7 @@ func (e *Encoder) checkEncodeRefMap(v reflect.Value) (int, bool) {
 			v = v.Elem()
 		}
 		kind = v.Elem().Kind()
+		key.typ = v.Elem().Type()
 		if kind == reflect.Slice || kind == reflect.Map {
 			addr = unsafe.Pointer(v.Elem().Pointer())
 		} else {
@@ -98,6 +109,7 @@ func (e *Encoder) checkEncodeRefMap(v reflect.Value) (int, bool) {
 		}
 	} else {
 		kind = v.Kind()
+		key.typ = v.Type()
 		switch kind {
 		case reflect.Slice, reflect.Map:
 			addr = unsafe.Pointer(v.Pointer())
@@ -117,19 +129,17 @@ func (e *Encoder) checkEncodeRefMap(v reflect.Value) (int, bool) {
 		if sv.Len() == 0 {
 			addr = unsafe.Pointer(PackPtr(sv).Pointer())
 		}
+		key.n = sv.Len()
 	}
 
-	if elem, ok := e.refMap[addr]; ok {
-		// the array addr is equal to the first elem, which must ignore
-		if elem.kind == kind {
-			// fmt.Printf("-----> find ref: %d, %p, %v, %v\n", elem.index, addr, kind, v)
-			return elem.index, ok
-		}
-		return 0, false
+	key.addr = addr
+	if elem, ok := e.refMap[key]; ok {
+		// fmt.Printf("-----> find ref: %d, %p, %v, %v\n", elem.index, addr, kind, v)
+		return elem.index, ok
 	}
 
 	n := len(e.refMap)
-	e.refMap[addr] = _refElem{kind, n}
+	e.refMap[key] = _refElem{kind, n}
 	// fmt.Printf("---> add ref: %d, %p, %v, %v\n", n, addr, kind, v)
 	return 0, false
 }
